@@ -982,7 +982,7 @@ def eof_fallback_ps(report, rid, db, S, others_too=True):
     disconnect = db.own_method(conn, 'disconnect')
     exc = ('sym', fi.params[1])
     handled = 0
-    for p in S.run(fi):
+    for p in S.run(fi, exact_self=ci):
         tests = [(a, pol) for a, pol, _ in p.conds if a[1] == 'isinstance'
                  and struct(a[2][0]) == exc]
         v = p.value
@@ -1041,11 +1041,11 @@ def eof_fallback_ps(report, rid, db, S, others_too=True):
     for rc in [base] + sorted(db.subclasses(base), key=lambda c: c.fq):
         if rc is ci:
             continue
-        hf = db.own_method(rc, 'handle_exception')
+        hf = db.find_method(rc, 'handle_exception')
         if hf is None:
             continue
         others += 1
-        for p in S.run(hf):
+        for p in S.run(hf, exact_self=rc):
             if not p.returns:
                 continue
             v = p.value
